@@ -37,6 +37,12 @@ def run(ctx, tier):
     ctx.rule("S1", "state switch exhaustive: every assigned state has a case")
     ctx.rule("S3", "the transition relation of the parser's state machine (state assignments reachable in each case, "
                    "fall-through included) equals the Standard's")
+    ctx.rule("T4", "byte predicates (is_ascii_tab_or_newline, is_c0_control_or_space, is_ascii_hex_digit, …) equal the "
+                   "Standard's code-point sets for all 256 values")
+    ctx.rule("T5", "the dot-segment tests compare against exactly the Standard's spellings")
+    ctx.rule("T6", "the Windows-drive-letter tests accept exactly the Standard's bytes at each index")
+    ctx.rule("T7", "prune_hash cuts at the first '#', trim_c0_whitespace trims both ends, shorten_path keeps the file "
+                   "drive-letter exception")
     ctx.rule("S4", "in each state of the parser the set of URL components that the state's code sets equals the set the "
                    "Standard's state sets (both storing instantiations)")
     ctx.rule("S2", "direct failure exits of the parser fail under the flags the Standard names (atSignSeen for the empty authority)")
@@ -52,6 +58,11 @@ def run(ctx, tier):
         SM.check_transitions(ctx, fxs[name], "S3")
         from rules import c04
         c04.check_state_writes_vs_standard(ctx, fxs[name], "S4")
+        from rules import helpers_spec as HS
+        HS.check_byte_predicates(ctx, fxs[name], "T4")
+        HS.check_dot_segments(ctx, fxs[name], "T5")
+        HS.check_drive_letters(ctx, fxs[name], "T6")
+        HS.check_shapes(ctx, fxs[name], "T7")
         from rules import c01_failctx
         c01_failctx.check(ctx, fxs[name], "S2")
         from rules import lowercase
